@@ -111,6 +111,15 @@ def heap_cases(ctx, ntables):
         for q in HEAP_QUERIES:
             for w in ('mutating', 'csv'):
                 out.append({'mode': 'heap', 'q': q, 'qjs': q, 'A': An, 'B': Bn if ' join ' in q else None, 'writer': w, 'tags': ['heap', w, 'nested']})
+        # column names on both tables, ragged records (a join record shorter than the list of join column names): whatever the
+        # engine does to line records up with a header, it does to copies (seeded change C06-11 padded the caller's join rows in place)
+        Ar = [list(row)[:r.randint(1, 3)] if r.random() < 0.4 else list(row) for row in A]
+        Br = [list(row) for row in B] + [[r.choice(['a', 'b', 'c'])]]
+        if r.random() < 0.5:
+            Br.insert(0, [r.choice(['a', 'b', 'c'])])
+        for q in HEAP_QUERIES + ['select a.c1, b.d2 join b on a.c1 == b.d1', 'select * left join b on a1 == b1', 'update a.c2 = b.d1 join b on a1 == b1']:
+            out.append({'mode': 'heap', 'q': q, 'qjs': q.replace('a2.split', 'a2.split'), 'A': Ar, 'B': Br if ' join ' in q else None, 'writer': 'table',
+                        'hdrA': ['c1', 'c2', 'c3'], 'hdrB': ['d1', 'd2', 'd3'][:r.randint(2, 3)] if ' join ' in q else None, 'tags': ['heap', 'table', 'named']})
     return out
 
 
